@@ -175,7 +175,7 @@ func init() {
 			c.Set("evaluations", calls)
 			c.Sample(cases[57])
 			c.Sample(cases[len(cases)-1])
-			c.Set("rule", fmt.Sprintf("13 element types x C in 1..4 x storage of P in 0..4 frames x window start S x initial length L (windows of a larger buffer, and direct Alloc(C,L,P)); each history is spare capacity + %d AppendSample calls, checked after every call against the views model (state = Len; transition = one call); non-trivial = has spare capacity; plus storages of 16 and 100 frames for 4 element types, 1500-frame storages (thousands of calls, full comparison every 97th call) and every channel count 5..70 on short buffers for 3 types; and, for all 39 element types of the facade (built-in, named, same-named), every special value (both zeros, infinities, largest/smallest magnitudes, integer bounds) appended over a cell holding every other one, compared by bit pattern", extra))
+			c.Set("rule", fmt.Sprintf("13 element types x C in 1..4 x storage of P in 0..4 frames x window start S x initial length L (windows of a larger buffer, and direct Alloc(C,L,P)); each history is spare capacity + %d AppendSample calls, checked after every call against the views model (state = Len; transition = one call); non-trivial = has spare capacity; plus storages of 16 and 100 frames for 4 element types, 1500-frame storages (thousands of calls, full comparison every 97th call) and every channel count 5..70 on short buffers for 3 types; and, for all 46 element types of the facade (built-in, named, same-named), every special value (both zeros, infinities, largest/smallest magnitudes, integer bounds) appended over a cell holding every other one, compared by bit pattern", extra))
 			c.Assume("storage identity is observed by aliasing (a full-capacity view taken before the first call and the root buffer), not by address")
 		},
 		RunCase: func(c *core.Ctx, raw json.RawMessage) []F { return c04Run(decode[c04Case](raw)) },
